@@ -72,6 +72,9 @@ fn main() {
         None => println!("{}", text),
       }
     }
+    "fc-run" => {
+      dgh::fc::cli(&args[2]);
+    }
     "c16-child" => {
       let seed: u64 = args[2].parse().unwrap();
       let idx: usize = args[3].parse().unwrap();
